@@ -1,106 +1,44 @@
 From DZ Require Import Base Keys Merkle BurnRate Swap_Ring State World Passport Exec Lemmas_Passport.
 
-(* ------------------------------------------------------------------------------------------------------------- *)
-(* 7. exact functional specifications with frame (C17)                                                             *)
-(* ------------------------------------------------------------------------------------------------------------- *)
-Definition lam_request (c : pp_config) : N := sat_add two64 (pc_deposit c) (rent LEN_ACCESS_REQ).
+Definition run_ops (W : world) (ops : list op) : world * list bool :=
+  fold_left (fun '(W, rs) o => let '(W', b) := exec_op W o in (W', rs ++ [b])) ops (W, []).
 
-(* RequestAccess.  The request account ends up with max(current, rent + deposit) lamports, owned by the program, of the
-   AccessRequest size, remembering service key, payer and the fee in force; the payer (account 1) loses exactly the
-   shortfall; every other account is untouched. *)
-Lemma pp_request_access_spec cx W mode W' :
-  pp_request_access cx W mode = Ok W' ->
-  let svc := access_mode_service mode in
-  let rk := KPpRequest svc in
-  let payer := nthk (cx_metas cx) 1 in
-  exists c, is_pp_config W (nthk (cx_metas cx) 0) c /\
-    let short := lam_request c - lamports (get W rk) in
-    short <= lamports (get W payer) /\ (short <> 0 -> payer <> rk /\ is_signer (cx_metas cx) payer = true) /\
-    now W' = now W /\
-    forall k, get W' k =
-      if key_eqb k rk then
-        {| lamports := N.max (lamports (get W rk)) (lam_request c); owner := KPassport; alen := LEN_ACCESS_REQ;
-           data := DAccessReq {| ar_service := svc; ar_beneficiary := payer; ar_fee := pc_fee c; ar_mode := mode |} |}
-      else if key_eqb k payer then get W k <| lamports := lamports (get W k) - short |>
-      else get W k.
-Proof.
-  intros H. apply pp_request_access_ok in H. cbn zeta in *.
-  destruct H as (m0 & m1 & m2 & rest & c & Hms & _ & _ & Ho & Hd & _ & _ & _ & _ & _ & _ & _ & _ & _ & Hle & Hsig & Hnow & Hpt).
-  rewrite Hms, nthk_0, nthk_1. exists c. unfold is_pp_config, lam_request, shortfall in *. split; [auto|].
-  set (rk := KPpRequest (access_mode_service mode)) in *.
-  set (short := sat_add two64 (pc_deposit c) (rent LEN_ACCESS_REQ) - lamports (get W rk)) in *.
-  split; [assumption|]. split; [intros Hs; destruct (Hsig Hs) as (? & ? & ?); auto|]. Show. split; [assumption|].
-  intros k. destruct (Hpt k) as (Hx & Hy). case_key k rk.
-  - destruct Hx as (Hx1 & Hx2 & Hx3). apply acct_ext; [|repeat split; assumption]. cbn [lamports]. rewrite Hy.
-    case_key rk (mkey m1).
-    + assert (short = 0) by (destruct (N.eq_dec short 0) as [|Hs]; [assumption|destruct (Hsig Hs) as (_ & _ & Hc); congruence]).
-      unfold short in *. lia.
-    + unfold short. lia.
-  - case_key k (mkey m1).
-    + apply acct_ext; [rewrite set_lamports_lam, Hy; lia|]. eapply same_meta_trans; [exact Hx|]. destruct (get W (mkey m1)); repeat split.
-    + apply acct_ext; [rewrite Hy; lia|assumption].
-Qed.
-
-(* GrantAccess.  Request account (2) zeroed, sentinel (1) + remembered fee, remembered beneficiary (3) + (balance - fee),
-   additively, so every aliasing between the three is covered; every other account, and all owners / data, untouched. *)
-Lemma pp_grant_access_spec cx W W' :
-  pp_grant_access cx W = Ok W' ->
-  let rk := nthk (cx_metas cx) 2 in
-  exists c r, is_pp_config W (nthk (cx_metas cx) 0) c /\ is_pp_request W rk r /\
-    nthk (cx_metas cx) 1 = pc_sentinel c /\ nthk (cx_metas cx) 3 = ar_beneficiary r /\
-    let bal := lamports (get W rk) in
-    now W' = now W /\
-    forall k, get W' k = get W k <| lamports :=
-        (if key_eqb k rk then 0 else lamports (get W k)) + (if key_eqb k (pc_sentinel c) then ar_fee r else 0)
-        + (if key_eqb k (ar_beneficiary r) then bal - ar_fee r else 0) |>.
-Proof.
-  intros H. apply pp_grant_access_ok in H. cbn zeta in *.
-  destruct H as (m0 & m1 & m2 & m3 & rest & c & r & Hms & Ho & Hd & _ & Hk & _ & Hor & Hdr & Hb & _ & _ & _ & Hnow & Hpt).
-  rewrite Hms, nthk_0, nthk_1, nthk_2, nthk_3. exists c, r. unfold is_pp_config, is_pp_request.
-  repeat (split; [assumption|]). intros k. destruct (Hpt k) as (Hx & Hy). rewrite <- Hk, <- Hb.
-  apply acct_ext; [rewrite set_lamports_lam; exact Hy|]. eapply same_meta_trans; [exact Hx|]. destruct (get W k); repeat split.
-Qed.
-
-(* DenyAccess.  Request account zeroed, sentinel + the entire balance. *)
-Lemma pp_deny_access_spec cx W W' :
-  pp_deny_access cx W = Ok W' ->
-  let rk := nthk (cx_metas cx) 2 in
-  exists c r, is_pp_config W (nthk (cx_metas cx) 0) c /\ is_pp_request W rk r /\ nthk (cx_metas cx) 1 = pc_sentinel c /\
-    now W' = now W /\
-    forall k, get W' k = get W k <| lamports :=
-        (if key_eqb k rk then 0 else lamports (get W k)) + (if key_eqb k (pc_sentinel c) then lamports (get W rk) else 0) |>.
-Proof.
-  intros H. apply pp_deny_access_ok in H. cbn zeta in *.
-  destruct H as (m0 & m1 & m2 & rest & c & r & Hms & Ho & Hd & _ & Hk & _ & Hor & Hdr & _ & Hnow & Hpt).
-  rewrite Hms, nthk_0, nthk_1, nthk_2. exists c, r. unfold is_pp_config, is_pp_request.
-  repeat (split; [assumption|]). intros k. destruct (Hpt k) as (Hx & Hy). rewrite <- Hk.
-  apply acct_ext; [rewrite set_lamports_lam; exact Hy|]. eapply same_meta_trans; [exact Hx|]. destruct (get W k); repeat split.
-Qed.
-
-(* readable consequences for the non-aliased and the aliased cases *)
-Lemma pp_grant_access_amounts cx W W' :
-  pp_grant_access cx W = Ok W' ->
-  exists c r, is_pp_config W (nthk (cx_metas cx) 0) c /\ is_pp_request W (nthk (cx_metas cx) 2) r /\
-    let rk := nthk (cx_metas cx) 2 in let s := pc_sentinel c in let b := ar_beneficiary r in
-    let bal := lamports (get W rk) in let fee := ar_fee r in
-    (s <> rk -> b <> rk -> lamports (get W' rk) = 0) /\
-    (s <> rk -> s <> b -> lamports (get W' s) = lamports (get W s) + fee) /\
-    (b <> rk -> s <> b -> lamports (get W' b) = lamports (get W b) + (bal - fee)) /\
-    (s <> rk -> s = b -> lamports (get W' s) = lamports (get W s) + fee + (bal - fee)) /\
-    (forall k, k <> rk -> k <> s -> k <> b -> get W' k = get W k) /\
-    (forall k, owner (get W' k) = owner (get W k) /\ alen (get W' k) = alen (get W k) /\ data (get W' k) = data (get W k)).
-Proof.
-  intros H. apply pp_grant_access_spec in H. cbn zeta in *. destruct H as (c & r & Hc & Hr & _ & _ & _ & Hpt).
-  exists c, r. split; [assumption|]. split; [assumption|].
-  set (rk := nthk (cx_metas cx) 2) in *.
-  repeat split; intros; rewrite Hpt; rewrite ?set_lamports_lam;
-    rewrite ?key_eqb_refl, ?(key_eqb_neq rk (pc_sentinel c)), ?(key_eqb_neq rk (ar_beneficiary r)),
-            ?(key_eqb_neq (pc_sentinel c) rk), ?(key_eqb_neq (ar_beneficiary r) rk),
-            ?(key_eqb_neq (pc_sentinel c) (ar_beneficiary r)), ?(key_eqb_neq (ar_beneficiary r) (pc_sentinel c)) by congruence;
-    try lia.
-  - subst. rewrite ?key_eqb_refl. lia.
-  - rewrite !key_eqb_neq by assumption. destruct (get W k); cbn. f_equal. lia.
-  - destruct (get W k); reflexivity.
-  - destruct (get W k); reflexivity.
-  - destruct (get W k); reflexivity.
-Qed.
+Definition ix1 (signers : list key) (prog : key) (d : ixdata) (ms : list meta) : op :=
+  OTx {| tx_signers := signers; tx_ixs := [{| i_prog := prog; i_data := d; i_metas := ms |}] |}.
+Definition uA := KUser 1.  (* upgrade authority, then admin *)
+Definition uS := KUser 2.  (* sentinel *)
+Definition uP := KUser 3.  (* requester *)
+Definition svc1 := KUser 77.
+Definition att1 := {| at_validator := KUser 50; at_service := svc1; at_sig := 5 |}.
+Definition mode1 := AMValidatorWithBackups att1 [KUser 60; KUser 61].
+Definition pd_acct := {| lamports := 1141440; owner := KLoader; alen := 36; data := DProgData (Some uA) |}.
+Definition op_init := ix1 [uA] KPassport (IxPassport PInitializeProgram) [mk uA true true; mk KPpConfig false true; mk KSystem false false].
+Definition op_set_admin := ix1 [uA] KPassport (IxPassport (PSetAdmin uA)) [mk (KProgData KPassport) false false; mk uA true false; mk KPpConfig false true].
+Definition op_conf (s : pp_setting) := ix1 [uA] KPassport (IxPassport (PConfigureProgram s)) [mk KPpConfig false true; mk uA true false].
+Definition op_request (payer : key) (m : access_mode) :=
+  ix1 [payer] KPassport (IxPassport (PRequestAccess m))
+    [mk KPpConfig false false; mk payer true true; mk (KPpRequest (access_mode_service m)) false true; mk KSystem false false].
+Definition grant_metas (svc ben : key) := [mk KPpConfig false false; mk uS true true; mk (KPpRequest svc) false true; mk ben false true].
+Definition op_grant (svc ben : key) := ix1 [uS] KPassport (IxPassport PGrantAccess) (grant_metas svc ben).
+Definition op_deny (svc : key) := ix1 [uS] KPassport (IxPassport PDenyAccess) [mk KPpConfig false false; mk uS true true; mk (KPpRequest svc) false true].
+Definition setup : list op :=
+  [OAirdrop uA 1000000000000; OAirdrop uS 1000000000; OAirdrop uP 1000000000000; OForge (KProgData KPassport) pd_acct;
+   op_init; op_set_admin; op_conf (PSSentinel uS); op_conf (PSAccessRequestDeposit 10000000 5000); op_conf (PSBackupIdsLimit 2)].
+Definition W_setup := fst (run_ops world0 setup).
+Eval vm_compute in snd (run_ops world0 setup).
+Eval vm_compute in snd (run_ops W_setup [op_request uP mode1; op_conf (PSAccessRequestDeposit 20 7); op_grant svc1 uP]).
+Eval vm_compute in map (fun k => lamports (get (fst (run_ops W_setup [op_request uP mode1; op_conf (PSAccessRequestDeposit 20 7); op_grant svc1 uP])) k)) [uA; uS; uP; KPpRequest svc1; KPpConfig].
+(* double grant in one tx *)
+Definition op_grant2 (svc ben : key) :=
+  OTx {| tx_signers := [uS]; tx_ixs := [{| i_prog := KPassport; i_data := IxPassport PGrantAccess; i_metas := grant_metas svc ben |};
+                                        {| i_prog := KPassport; i_data := IxPassport PGrantAccess; i_metas := grant_metas svc ben |}] |}.
+Eval vm_compute in snd (run_ops W_setup [op_request uP mode1; op_grant2 svc1 uP]).
+Eval vm_compute in map (fun k => lamports (get (fst (run_ops W_setup [op_request uP mode1])) k)) [uA; uS; uP; KPpRequest svc1; KPpConfig].
+Eval vm_compute in map (fun k => lamports (get (fst (run_ops W_setup [op_request uP mode1; op_grant2 svc1 uP])) k)) [uA; uS; uP; KPpRequest svc1; KPpConfig].
+(* payer = request PDA *)
+Definition rk1 := KPpRequest svc1.
+Definition op_request_self (m : access_mode) :=
+  ix1 [uP] KPassport (IxPassport (PRequestAccess m))
+    [mk KPpConfig false false; mk (KPpRequest (access_mode_service m)) false true; mk (KPpRequest (access_mode_service m)) false true; mk KSystem false false].
+Eval vm_compute in snd (run_ops W_setup [OAirdrop rk1 50000000; op_request_self mode1; op_grant svc1 rk1]).
+Eval vm_compute in map (fun k => get (fst (run_ops W_setup [OAirdrop rk1 50000000; op_request_self mode1; op_grant svc1 rk1])) k) [uS; rk1].
